@@ -318,3 +318,18 @@ Section S.
     rewrite getC_set_H, getC_register. unfold getC, add_C. simpl. rewrite nth_app_new. reflexivity.
   Qed.
 End S.
+
+(* ---- provenance and working directory do not enter the model *)
+Lemma erase_app : forall a b, erase_C02 (a ++ b) = erase_C02 a ++ erase_C02 b.
+Proof. intros a b. unfold erase_C02. apply flat_map_app. Qed.
+
+Lemma provenance_irrelevant : forall frepr a b r pv pv',
+  run_items frepr (a ++ ISession r pv :: b) = run_items frepr (a ++ ISession r pv' :: b).
+Proof. intros. unfold run_items. rewrite !erase_app. reflexivity. Qed.
+
+Lemma cwd_irrelevant : forall frepr a b d,
+  run_items frepr (a ++ IChdir d :: b) = run_items frepr (a ++ b).
+Proof. intros. unfold run_items. rewrite !erase_app. reflexivity. Qed.
+
+Lemma erased_run : forall frepr p p', erase_C02 p = erase_C02 p' -> run_items frepr p = run_items frepr p'.
+Proof. intros frepr p p' H. unfold run_items. rewrite H. reflexivity. Qed.
